@@ -659,7 +659,7 @@ func c01RunOnce(c *core.Case, o *core.Outcome, p c01RunParams, inst *metrics.Met
 		o.AddObs("pushes_checked", int64(n))
 	}
 	time.Sleep(250 * time.Millisecond)
-	r.Result.GetTotals()
+	engine.TakeTotals(r.Result)
 	su2, fa2, dr2 := resultCounts(r)
 	fams, _ = engine.Gather(r.Registry)
 	if su2 != su || fa2 != fa || dr2 != dr {
@@ -759,7 +759,7 @@ func c01Integration(c *core.Case, o *core.Outcome) {
 	<-env.Manager.WaitForCompletion()
 	close(stop)
 	sdone.Wait()
-	res.GetTotals()
+	engine.TakeTotals(res)
 	s := res.Snapshot()
 	su, fa, dr := s.SuccessfulIterationDurations.Count, s.FailedIterationDurations.Count, s.DroppedIterationCount
 	fams, err := engine.Gather(env.Registry)
